@@ -281,6 +281,11 @@ pub struct World {
     /// a scripted child panic is unwinding right now (the driver expects it)
     pub plain_join: Cell<bool>,
     pub unit_join: Cell<bool>,
+    /// size hints of the iterators given to `extend`: 0 = random per call, 1 = exact, 2 = (0, Some(n))
+    pub extend_mode: Cell<u8>,
+    /// scripted: the input iterator of the next constructor panics at this index
+    pub iter_panic_at: Cell<Option<usize>>,
+    pub iter_panic_now: Cell<Option<usize>>,
     /// the output token whose destructor panics (scripted)
     pub tok_panics: Cell<Option<u32>>,
     pub panic_outputs: Cell<bool>,
@@ -356,6 +361,9 @@ impl World {
             armed: Cell::new(""),
             plain_join: Cell::new(false),
             unit_join: Cell::new(false),
+            extend_mode: Cell::new(0),
+            iter_panic_at: Cell::new(None),
+            iter_panic_now: Cell::new(None),
             tok_panics: Cell::new(None),
             panic_outputs: Cell::new(false),
             panic_leaks_ok: Cell::new(true),
@@ -385,6 +393,9 @@ impl World {
             && !(prop == "C07" && C07_SAFETY.contains(&rule))
             && !(prop == "C06" && (rule == "double_drop" || !self.panic_leaks_ok.get()))
             && !(prop == "C05" && rule == "polled_after_drop")
+            && !(prop == "C08" && (rule == "moved_before_drop" || rule == "moved_between_polls"))
+            && !(prop == "C12" && rule == "poll_without_notification")
+            && !(prop == "C15" && (rule == "len_exceeds_capacity" || rule == "accepted_at_reported_capacity"))
         {
             // (after a child panicked, what is judged is memory safety as safe code sees it: no
             // value nobody produced or already dropped is handed out, nothing is dropped twice,
